@@ -21,6 +21,94 @@ theorem C17_lines (c : Cfg) (txt : Str) : ∀ l ∈ format c txt, ∀ x ∈ l, x
   rw [hx'] at this
   exact absurd this (by decide)
 
+/-! ### what "word" means (specification side) -/
+
+/-- The four equations that define `words`, stated without the model's tokeniser: the empty text
+    has no words; a leading blank or newline is skipped; a non-empty run `w` of characters other
+    than blank and newline that is followed by a blank or newline is the first word and the rest of
+    the words are those of the text behind that separator; such a run that ends the text is the last
+    word.  (Every text has exactly one of these four shapes, so the equations determine `words`:
+    `C17_words_unique`.) -/
+theorem C17_words_means :
+    words [] = [] ∧
+    (∀ c s, (c = ' ' ∨ c = '\n') → words (c :: s) = words s) ∧
+    (∀ w c s, w ≠ [] → (∀ x ∈ w, x ≠ ' ' ∧ x ≠ '\n') → (c = ' ' ∨ c = '\n') →
+        words (w ++ c :: s) = w :: words s) ∧
+    (∀ w, w ≠ [] → (∀ x ∈ w, x ≠ ' ' ∧ x ≠ '\n') → words w = [w]) := by
+  have hsep : ∀ c, (c = ' ' ∨ c = '\n') → isSep c = true := by
+    intro c h; rcases h with h | h <;> subst h <;> rfl
+  have hclean : ∀ w : Str, (∀ x ∈ w, x ≠ ' ' ∧ x ≠ '\n') → Clean isSep w := by
+    intro w h x hx
+    have := h x hx
+    simp only [isSep, Bool.or_eq_false_iff, beq_eq_false_iff_ne]
+    exact ⟨this.2, this.1⟩
+  refine ⟨rfl, fun c s hc => tokP_cons_sep (hsep c hc) s, ?_, fun w hne hw => tokP_clean (hclean w hw) hne⟩
+  intro w c s hne hw hc
+  unfold words
+  rw [tokP_append_sep w (hsep c hc) s, tokP_clean (hclean w hw) hne]
+  rfl
+
+/-- `words` is the only function satisfying the four equations of `C17_words_means`: the
+    specification of "word" used by `C17_words` does not depend on how the model tokenises. -/
+theorem C17_words_unique (f : Str → List Str)
+    (h1 : f [] = [])
+    (h2 : ∀ c s, (c = ' ' ∨ c = '\n') → f (c :: s) = f s)
+    (h3 : ∀ w c s, w ≠ [] → (∀ x ∈ w, x ≠ ' ' ∧ x ≠ '\n') → (c = ' ' ∨ c = '\n') → f (w ++ c :: s) = w :: f s)
+    (h4 : ∀ w, w ≠ [] → (∀ x ∈ w, x ≠ ' ' ∧ x ≠ '\n') → f w = [w]) :
+    ∀ s, f s = words s := by
+  obtain ⟨w1, w2, w3, w4⟩ := C17_words_means
+  have key : ∀ n (s : Str), s.length ≤ n → f s = words s := by
+    intro n
+    induction n with
+    | zero =>
+      intro s hs
+      have : s = [] := List.eq_nil_of_length_eq_zero (by omega)
+      subst this; rw [h1, w1]
+    | succ n ih =>
+      intro s hs
+      cases s with
+      | nil => rw [h1, w1]
+      | cons c cs =>
+        by_cases hc : c = ' ' ∨ c = '\n'
+        · rw [h2 c cs hc, w2 c cs hc]
+          exact ih cs (by simp at hs; omega)
+        · -- the maximal run of non-separators at the front
+          let q : Char → Bool := fun x => !(isSep x)
+          have hq : ∀ x, q x = true → x ≠ ' ' ∧ x ≠ '\n' := by
+            intro x hx
+            simp only [q, isSep, Bool.not_eq_true', Bool.or_eq_false_iff, beq_eq_false_iff_ne] at hx
+            exact ⟨hx.2, hx.1⟩
+          have hqc : q c = true := by
+            simp only [q, isSep, Bool.not_eq_true', Bool.or_eq_false_iff, beq_eq_false_iff_ne]
+            exact ⟨fun h => hc (Or.inr h), fun h => hc (Or.inl h)⟩
+          have hsplit : c :: cs = (c :: cs).takeWhile q ++ (c :: cs).dropWhile q :=
+            (List.takeWhile_append_dropWhile).symm
+          have hwne : (c :: cs).takeWhile q ≠ [] := by
+            rw [List.takeWhile_cons, if_pos hqc]; exact List.cons_ne_nil _ _
+          have hwclean : ∀ x ∈ (c :: cs).takeWhile q, x ≠ ' ' ∧ x ≠ '\n' :=
+            fun x hx => hq x (List.all_eq_true.mp (List.all_takeWhile (p := q) (l := c :: cs)) x hx)
+          cases hd : (c :: cs).dropWhile q with
+          | nil =>
+            rw [hd, List.append_nil] at hsplit
+            rw [hsplit, h4 _ hwne hwclean, w4 _ hwne hwclean]
+          | cons d rest =>
+            have hdsep : d = ' ' ∨ d = '\n' := by
+              have hnot : q d = false := by
+                have := List.head_dropWhile_not q (l := c :: cs) (by rw [hd]; exact List.cons_ne_nil _ _)
+                simpa only [hd, List.head_cons] using this
+              simp only [q, isSep, Bool.not_eq_false', Bool.or_eq_true, beq_iff_eq] at hnot
+              exact hnot.symm
+            rw [hd] at hsplit
+            rw [hsplit, h3 _ d rest hwne hwclean hdsep, w3 _ d rest hwne hwclean hdsep]
+            congr 1
+            apply ih
+            have hl := congrArg List.length hsplit
+            simp only [List.length_append, List.length_cons] at hl hs
+            have : 0 < ((c :: cs).takeWhile q).length := List.length_pos_iff.mpr hwne
+            omega
+  intro s
+  exact key s.length s (Nat.le_refl _)
+
 /-- (1) The words of the written text, in order, are exactly the words of the input without the
     `nn` tokens: no word is lost, duplicated, moved or split, and `nn` is consumed. -/
 theorem C17_words (c : Cfg) (txt : Str) :
@@ -189,6 +277,10 @@ example : format ⟨4, 9, true⟩ "\n\n".toList = [] := by decide
 
 /-- degenerate width: the weak width statement still has content (one word per line) -/
 example : format ⟨6, 5, true⟩ "a b".toList = ["      ".toList, "      a".toList, "      b".toList] := by decide
+
+/-- hypotheses of the third equation of `C17_words_means`, instantiated -/
+example : words ("ab".toList ++ '\n' :: " cd e".toList) = "ab".toList :: words " cd e".toList ∧
+    "ab".toList ≠ [] ∧ (∀ x ∈ "ab".toList, x ≠ ' ' ∧ x ≠ '\n') := by decide
 
 example : words "- ab nn cd\nk".toList = ["-".toList, "ab".toList, "nn".toList, "cd".toList, "k".toList] := by decide
 
